@@ -507,6 +507,7 @@ def _hypotest_end_to_end(ctx, rid, repo):
             ctx.violated(rid, hyp, f"hypotest end to end [{lab}]", f"hypotest({stat}) composed with the asymptotic calculator does not give the asymptotic answer for this call: {probs[0]}", expected="observed / expected values of arXiv:1007.1727 from this call's statistic and Asimov statistic", found=probs[0])
         else:
             ctx.holds(rid, f"{INF}::hypotest -> AsymptoticCalculator [{lab}]", "statistic on data and on the Asimov data of this call; observed, tails, median and band by the asymptotic formulae")
+    toy_history(ctx, rid, w, hyp, pdf, at, c)
     # ---- refusals, through hypotest itself (whatever helper does the checking, with whatever signature)
     nopoi = Obj("pdf", {"config": Obj("config", {"poi_index": None})})
     fixed_in_model = Obj("pdf", {"config": Obj("config", {"poi_index": c(0), "suggested_fixed": [True, False]})})
@@ -538,3 +539,98 @@ def _hypotest_end_to_end(ctx, rid, repo):
                 ctx.violated(rid, hyp, f"hypotest refusal [{lab}]", f"raises {got}", expected=want_exc)
         except errs as e:
             ctx.unrecognised(rid, hyp, f"hypotest refusal [{lab}]", f"not interpretable: {type(e).__name__}: {e}")
+
+
+def toy_history(ctx, rid, w, hyp, pdf, at, c):
+    """hypotest(calctype='toybased') three times on ONE model at ONE tested value with the same statistic and number of toys:
+    other data in the second call, other fixed-parameter flags in the third.  The toy calculator is a recorder: every call
+    must construct its own calculator from THIS call's data and fit configuration and take the observed statistic, the toy
+    distributions and the p-values from that calculator (shared by C08.R6 and C14.R5)."""
+    from ..alg import RaisedInFragment
+    made, used = [], []
+
+    def toy_ctor(a, k):
+        n = len(made) + 1
+        kk = dict(k)
+        for nm, v in zip(("data", "pdf", "init_pars", "par_bounds", "fixed_params"), a):
+            kk[nm] = v
+        calc = Obj("toycalc", {"test_stat": kk.get("test_stat", "qtilde"), "ntoys": kk.get("ntoys", c(2000)), "serial": n}, closed=True)
+        made.append(kk)
+        calc.attrs["teststatistic"] = PyFunc(lambda a2, k2, n=n: at(f"TS{n}"), "teststatistic")
+        calc.attrs["distributions"] = PyFunc(lambda a2, k2, n=n: (Obj(f"SB{n}"), Obj(f"B{n}")), "distributions")
+        calc.attrs["pvalues"] = PyFunc(lambda a2, k2, n=n: (used.append(("pvalues", n, [getattr(x, "name", str(x)) for x in a2])) or (at(f"CLsb{n}"), at(f"CLb{n}"), at(f"CLs{n}"))), "pvalues")
+        calc.attrs["expected_pvalues"] = PyFunc(lambda a2, k2, n=n: (used.append(("expected", n, [getattr(x, "name", str(x)) for x in a2])) or ([at(f"Esb{n}_{j}") for j in range(5)], [at(f"Eb{n}_{j}") for j in range(5)], [at(f"Es{n}_{j}") for j in range(5)])), "expected_pvalues")
+        return calc
+
+    saved = w.base.get("ToyCalculator")
+    w.base["ToyCalculator"] = toy_ctor
+    w.ext = None
+    errs = (Undecided, KeyError, TypeError, ValueError, IndexError, AttributeError)
+    try:
+        mu = at("mu_toys")
+        calls = [("first call", [at("t1_0"), at("t1_1")], [False, False]), ("second call, other data", [at("t2_0"), at("t2_1")], [False, False]), ("third call, the second nuisance parameter held constant", [at("t2_0"), at("t2_1")], [False, True])]
+        probs = []
+        for i, (lab, data, fixed) in enumerate(calls, 1):
+            n_made, n_used = len(made), len(used)
+            init, bounds = Obj(f"toy_init{i}"), Obj(f"toy_bounds{i}")
+            out = w.call_func(hyp, [mu, data, pdf, init, bounds, fixed], {"calctype": "toybased", "ntoys": c(50), "test_stat": "qtilde", "return_expected_set": True})
+            mine = made[n_made:]
+            if len(mine) != 1 or mine[0].get("data") is not data or mine[0].get("pdf") is not pdf or mine[0].get("init_pars") is not init or mine[0].get("par_bounds") is not bounds or mine[0].get("fixed_params") is not fixed:
+                probs.append(f"{lab}: the toy calculator is not constructed once from this call's data, model, start values, bounds and fixed flags ({len(mine)} constructions)")
+                break
+            n = len(made)
+            want_used = [("pvalues", n, [f"TS{n}", f"SB{n}", f"B{n}"]), ("expected", n, [f"SB{n}", f"B{n}"])]
+            if used[n_used:] != want_used:
+                probs.append(f"{lab}: observed and expected p-values are computed from {used[n_used:]}; this call's calculator, statistic and toy distributions are {want_used} -- toys thrown for an EARLIER call (other data / other fit configuration) are reused")
+                break
+            got0 = str(to_poly(out[0])) if isinstance(out, (tuple, list)) and out else str(out)
+            if got0 != f"CLs{n}":
+                probs.append(f"{lab}: the observed value returned is {got0}, this call's is CLs{n}")
+                break
+        if probs:
+            ctx.violated(rid, hyp, "toy-based hypotest history on one model", probs[0], expected="every call: its own calculator, statistic, toy distributions and p-values", found=probs[0])
+        else:
+            ctx.holds(rid, f"{INF}::hypotest [toybased, three calls on one model at one tested value: other data, other fixed flags]", "each call constructs its calculator from its own arguments and reports that calculator's p-values")
+    except RaisedInFragment as e:
+        ctx.violated(rid, hyp, "toy-based hypotest history", f"raises {e.exc_name} on valid arguments")
+    except errs as e:
+        ctx.unrecognised(rid, hyp, "toy-based hypotest history", f"not interpretable: {type(e).__name__}: {e}")
+    finally:
+        if saved is not None:
+            w.base["ToyCalculator"] = saved
+        w.ext = None
+
+
+def toy_history_standalone(ctx, rid, repo):
+    """the toy-based history in a world of its own: hypotest and its helpers, create_calculator, a stand-in model"""
+    from ..alg import NotHandled
+    from ..objmodel import World
+    at, c = Poly.atom, Poly.const
+    hyp = repo.func(INF, "hypotest")
+    ctx.touch(hyp)
+    try:
+        w = World({"__strict__": True}, module_env={"log": Obj("log"), "exceptions": Obj("exceptions"), "utils": Obj("utils")})
+        for rel in (INF, UT):
+            for q, g in repo.module(rel).funcs.items():
+                if "." not in q and q not in ("__dir__", "get_test_stat", "hypotest"):
+                    w.add_func(g)
+        w.add_func(hyp)
+        w.base["AsymptoticCalculator"] = lambda a, k: (_ for _ in ()).throw(Undecided("asymptotic calculator not part of this scenario"))
+        cfg = Obj("config", {"poi_index": c(0)})
+        pdf = Obj("pdf", {"config": cfg})
+
+        def cfg_method(value):
+            def f(recv, a, k):
+                if isinstance(recv, Obj) and recv.name == "config":
+                    return value(recv)
+                raise NotHandled()
+            return f
+
+        w.base[".suggested_fixed"] = cfg_method(lambda r_: [False, False])
+        w.base[".suggested_init"] = cfg_method(lambda r_: [at("SI0"), at("SI1")])
+        w.base[".suggested_bounds"] = cfg_method(lambda r_: [(at("SL0"), at("SH0")), (at("SL1"), at("SH1"))])
+        w.ext = None
+    except (Undecided, KeyError, TypeError, ValueError, IndexError, AttributeError) as e:
+        ctx.unrecognised(rid, hyp, "toy-based hypotest history", f"world not buildable: {type(e).__name__}: {e}")
+        return
+    toy_history(ctx, rid, w, hyp, pdf, at, c)
